@@ -8,3 +8,4 @@ import CC.Thm.C04
 #print axioms CC.Thm.C04.streaming_conforms
 #print axioms CC.Thm.C04.source_kernels_match
 #print axioms CC.Thm.C04.source_code_match
+#print axioms CC.Thm.C04.source_glue_match
